@@ -16,6 +16,7 @@ import (
 // after the row loop) and d525180 (the body's error formatted with %s when Rollback fails too).
 func c11R9(r *core.Run) {
 	p := r.P
+	defer c11R10(r)
 	r.Explanation += " That an index into the flattened field list which runs over the result's columns is reachable only where the list is known to be at least as long as the column list (or the index is bounded by the list itself); that, in every function of lib/store/sqlx that iterates rows, no nil error is returned after Next() reported false unless Err() was consulted and was nil; that every error the finaliser stores on a path on which the body's error is non-nil wraps that error (%w / errors.Join / the error itself)."
 	r.NotDecided += " Positional mapping: only that the index stays inside the field list, not which field a column lands in. Rows.Err: only the functions of lib/store/sqlx that call Next themselves; a Next result that is not branched on directly is reported unresolved. Wrapping: fmt.Errorf with a constant format and errors.Join are understood; any other constructor of the stored error is reported unresolved; what the message says is not examined."
 
